@@ -18,6 +18,7 @@ from wormhole.util import hexstr_to_bytes as real_hexstr_to_bytes, bytes_to_hexs
 CONFIGS = {
     "set-set": dict(modes=("set", "set"), nmsg=(2, 2)),
     "alloc-input": dict(modes=("allocate", "input"), nmsg=(1, 2)),
+    "set-set-starved": dict(modes=("set", "set"), nmsg=(1, 1), canon="starveA"),
 }
 PHASES = ["pake", "version", "0", "1", "dilate-0", "junk", "0\u0661", "0\u200b", "00", "\u0660"]
 NONPAKE = ["version", "0", "1", "dilate-0", "junk", "0\u0661", "1\u200b"]
@@ -37,6 +38,16 @@ def shadows():
 
 def msgs(c):
     return [e[1] for e in c.ev if e[0] == "message"]
+
+
+class SimpleRec:
+    """IOrder stand-in that records and forwards"""
+    def __init__(self, f, real):
+        self.got_message = f
+        self._real = real
+
+    def __getattr__(self, k):
+        return getattr(self._real, k)
 
 
 class Tamper(Job):
@@ -140,6 +151,40 @@ class Tamper(Job):
         else:
             p, victim = script["prefix"], script["victim"]
         sim = Sim(**sim_args(CONFIGS[self.cfg]))
+        accepted = []       # (side label, phase label, body) of every message that decrypted successfully, on either client
+        last = {}
+        real_dpk, real_dec = RCV.derive_phase_key, RCV.decrypt_data
+
+        def dpk(key, side, phase):
+            last["label"] = (side.get() if isinstance(side, SymEnum) else side, phase.get() if isinstance(phase, SymEnum) else phase)
+            return real_dpk(key, side, phase)
+
+        def dec(key, body):
+            pt = real_dec(key, body)
+            accepted.append(last.get("label", (None, None)) + (body,))
+            self._nacc[last.get("client")] = self._nacc.get(last.get("client"), 0) + 1
+            return pt
+        lab = loader.shadow((RCV, "derive_phase_key", dpk), (RCV, "decrypt_data", dec))
+        lab.__enter__()
+        self._accepted = accepted
+        # wire labels of every peer-side message that passed the Mailbox (de-duplication) and reached Order, per client
+        self._reached = [[] for _ in sim.cl]
+        self._nacc = {}
+        for ci, c in enumerate(sim.cl):
+            orig = c.boss._O.got_message
+
+            def rec(side, phase, body, orig=orig, ci=ci):
+                sd = side.get() if isinstance(side, SymEnum) else side
+                ph = phase.get() if isinstance(phase, SymEnum) else phase
+                self._reached[ci].append((sd, ph, body))
+                return orig(side, phase, body)
+            c.boss._M._O = SimpleRec(rec, c.boss._O)
+            origr = c.boss._R.got_message
+
+            def recr(side, phase, body, origr=origr, ci=ci):
+                last["client"] = ci
+                return origr(side, phase, body)
+            c.boss._O._R = SimpleRec(recr, c.boss._R)
         try:
             assert replay_actions(sim, canon[:p])
             done = 0
@@ -156,10 +201,33 @@ class Tamper(Job):
                 viol = self.violations(sim)
             return viol
         finally:
+            lab.__exit__(None, None, None)
             sim.close_world()
 
     def violations(self, sim):
         out = []
+        # every message a client accepted (decrypted successfully) carries exactly the labels and body of a message that an honest
+        # client really added to the mailbox: a re-labelled copy must never be accepted, even if its content is authentic
+        honest = set()
+        for mb in sim.world.server.mailboxes.values():
+            for (s_, ph, body) in mb["msgs"]:
+                if s_ in (sim.cl[0].side, sim.cl[1].side if len(sim.cl) > 1 else None):
+                    honest.add((s_, ph, body))
+        # every successful decryption on a client is attributable to a message that reached its Order machine (i.e. passed the
+        # Mailbox's filters) with the wire labels and body of an honest message: the labels are judged where they enter the client,
+        # so a machine that swaps them on the way to Receive does not hide a forged one
+        for ci, c in enumerate(sim.cl):
+            reached = [(sd, ph, bytes_to_hexstr(body)) for (sd, ph, body) in getattr(self, "_reached", [[], []])[ci]
+                       if ph != "pake" and isinstance(body, bytes)]
+            nh = len([m for m in reached if m in honest])
+            na = getattr(self, "_nacc", {}).get(ci, 0)
+            if na > nh:
+                out.append(("a re-labelled message was accepted", "%s decrypted %d messages but only %d honestly-labelled ones reached it (reached: %r)" % (
+                    c.name, na, nh, [m[:2] for m in reached][:4])))
+        for (s_, ph, body) in getattr(self, "_accepted", []):
+            b = bytes_to_hexstr(body) if isinstance(body, bytes) else None
+            if (s_, ph, b) not in honest:
+                out.append(("a message was accepted under labels it was not encrypted for", "side %r phase %r" % (s_, ph)))
         for i, c in enumerate(sim.cl):
             peer = "AB"[1 - i]
             sent = [b"msg-%s-%d" % (peer.encode(), n) for n in range(sim.api[1 - i]["sent"])]
